@@ -12,7 +12,7 @@ import semlib
 import vlib
 
 PID = "C01"
-CORE = ["ints", "bool", "float", "char", "loops", "calls", "recfn", "ret", "enum", "opt", "rec", "list", "str", "fstr", "generic", "filtermap"]
+CORE = ["ints", "bool", "float", "char", "loops", "calls", "recfn", "ret", "enum", "opt", "rec", "list", "str", "fstr", "generic", "filtermap", "copymut"]
 
 
 def run(tier):
